@@ -16,7 +16,7 @@ Rec == ndJsonDeserialize(IOEnv.TRACE)
 VARIABLES l, st, live, nbad, hits
 vars == <<l, st, live, nbad, hits>>
 
-Dummy == InitState("none", 0, 0, FALSE)
+Dummy == InitState("none", 0, 0, FALSE, FALSE, <<>>)
 
 Bad(e, clause) == PrintT(<<"BAD", l, e.run, e.ev, clause>>)
 
@@ -36,16 +36,16 @@ Step ==
     /\ l' = l + 1
     /\ CASE e.ev = "KFold" ->
               /\ IF KFoldOK(e) THEN nbad' = nbad ELSE Bad(e, "IsKFoldSplit") /\ nbad' = nbad + 1
-              /\ hits' = Hit(IF e.k < 2 THEN "KFoldPanic" ELSE IF e.shuffle THEN "KFoldShuffled" ELSE "KFold")
+              /\ hits' = Hit(IF e.k < 2 THEN "KFoldPanic" ELSE IF e.via > 0 THEN "KFoldVia" ELSE IF e.shuffle THEN "KFoldShuffled" ELSE "KFold")
               /\ UNCHANGED <<st, live>>
          [] e.ev = "TTS" ->
               /\ IF TTSOK(e) THEN nbad' = nbad ELSE Bad(e, "IsTTS") /\ nbad' = nbad + 1
               /\ hits' = Hit(IF TTSShouldPanic(e.n, e.ny, e.tsM, e.tsE) THEN "TTSPanic" ELSE "TTS")
               /\ UNCHANGED <<st, live>>
          [] e.ev = "CVStart" ->
-              /\ st' = InitState(e.kind, e.n, e.k, e.shuffle)
+              /\ st' = InitState(e.kind, e.n, e.k, e.shuffle, e.custom, e.splits)
               /\ live' = TRUE
-              /\ hits' = Hit("CVStart")
+              /\ hits' = Hit(IF e.custom THEN "CVStartCustom" ELSE "CVStart")
               /\ UNCHANGED nbad
          [] e.ev \in {"Fit", "Predict", "Score", "CVDone"} ->
               IF ~live THEN UNCHANGED <<st, live, nbad, hits>>
@@ -66,7 +66,7 @@ Step ==
                             /\ UNCHANGED hits
          [] OTHER -> Bad(e, "unknown event") /\ nbad' = nbad + 1 /\ UNCHANGED <<st, live, hits>>
 
-HitNames == {"KFold", "KFoldShuffled", "KFoldPanic", "TTS", "TTSPanic", "CVStart", "Fit", "Predict", "Score", "CVDone"}
+HitNames == {"CVStartCustom", "KFoldVia", "KFold", "KFoldShuffled", "KFoldPanic", "TTS", "TTSPanic", "CVStart", "Fit", "Predict", "Score", "CVDone"}
 
 Init == /\ l = 1 /\ st = Dummy /\ live = FALSE /\ nbad = 0
         /\ hits = [x \in HitNames |-> 0]
